@@ -28,12 +28,22 @@ type titleDoc struct {
 	MarkupSrc string
 	HasSep    bool
 	NonASCII  bool // the title has non-ASCII letters: delivered as a parsed tree
+	SVGTitle  bool // an inline <svg> with a <title> child precedes the content
+	OptOut    bool // the page carries the IE_RM_OFF tag: MarkupInfo supplies nothing
 	Spec      string
 }
 
 func (td *titleDoc) build(extraBlock string) string {
 	var sb strings.Builder
-	sb.WriteString("<html><head><title>" + td.TitleHTML + "</title>")
+	if td.TitleHTML == "" && td.SVGTitle {
+		// a page without <title>; the first element called "title" is the tooltip of an inline picture
+		sb.WriteString("<html><head>")
+	} else {
+		sb.WriteString("<html><head><title>" + td.TitleHTML + "</title>")
+	}
+	if td.OptOut {
+		sb.WriteString(`<meta name="IE_RM_OFF" content="true">`)
+	}
 	switch td.MarkupSrc {
 	case "og":
 		sb.WriteString(`<meta property="og:title" content="` + td.Markup + `"><meta property="og:type" content="article"><meta property="og:url" content="http://og.example/x"><meta property="og:image" content="http://og.example/i.png">`)
@@ -41,6 +51,9 @@ func (td *titleDoc) build(extraBlock string) string {
 		sb.WriteString(`<meta name="title" content="` + td.Markup + `">`)
 	}
 	sb.WriteString("</head><body>")
+	if td.SVGTitle {
+		sb.WriteString(`<svg width="20" height="20"><title>s1v s2v s3v s4v</title><circle r="5"></circle></svg>`)
+	}
 	if td.MarkupSrc == "so" {
 		sb.WriteString(`<div itemscope itemtype="http://schema.org/Article"><meta itemprop="headline" content="` + td.Markup + `"></div>`)
 	}
@@ -88,7 +101,11 @@ func genTitle(r *RNG) *titleDoc {
 				fmt.Fprintf(&sb, "t%dx", r.Intn(100000))
 			}
 			// apostrophes and sentence punctuation inside / after words
-			switch r.Intn(14) {
+			switch r.Intn(16) {
+			case 14: // punctuation that stands apart from the word before it
+				if !td.NonASCII {
+					sb.WriteString([]string{" ?", " !", " ...", " .NET", " ;)"}[r.Intn(5)])
+				}
 			case 0:
 				sb.WriteString("'s")
 			case 1:
@@ -110,6 +127,7 @@ func genTitle(r *RNG) *titleDoc {
 		td.HasSep = false
 	}
 	td.TitleHTML = sb.String()
+	td.SVGTitle = r.Intn(6) == 0
 	td.T0 = strings.Join(strings.Fields(entityRepl.Replace(td.TitleHTML)), " ")
 	mk := func(p string, n int) string {
 		var w []string
@@ -157,7 +175,8 @@ func genTitle(r *RNG) *titleDoc {
 	case 2:
 		td.MarkupSrc, td.Markup = "ie", pad(mk("MI", 1+r.Intn(6)))
 	}
-	td.Spec = fmt.Sprintf("parts=%d sep=%v h1=%v h2=%v markup=%s len=%d", nparts, td.HasSep, td.H1 != "", td.H2 != "", td.MarkupSrc, utf8.RuneCountInString(td.T0))
+	td.OptOut = td.MarkupSrc != "" && r.Intn(6) == 0
+	td.Spec = fmt.Sprintf("parts=%d sep=%v h1=%v h2=%v markup=%s optout=%v len=%d", nparts, td.HasSep, td.H1 != "", td.H2 != "", td.MarkupSrc, td.OptOut, utf8.RuneCountInString(td.T0))
 	return td
 }
 
@@ -169,8 +188,8 @@ func init() {
 		Rule: "titles of 1-4 parts of 1-45 unique tokens joined by 14 separators (| - / \\ > raquo colon variants, mdash, middot, comma; entities in bytes) x first <h1> in {none, unrelated, = title, = part before ' - '} x <h2> x markup title in {none, OpenGraph, schema.org, IE}. Clauses: (1) a markup title wins; (2) otherwise Title is the <title> text, a non-empty contiguous part of it, or the first <h1> text; (3) a 15..150 character <title> without any separator character is returned exactly; (4) two-step: the page is rebuilt with an extra <h1>/<h2>/<p>/<div> block whose text is exactly the Title learnt in step one, and if Title is unchanged none of that block's words may occur in Text or HTML. Non-trivial = a page with a non-empty title; distinct = distinct (title shape, which clause decided, block kind).",
 		Assumptions: []string{
 			"'separator pattern' is read conservatively for clause 3: the title contains none of the characters | - / \\ > raquo :",
-			"pages with an IE_RM_OFF tag are not generated (MarkupInfo is blank there while the extractor still prefers the markup title: the statement's 'otherwise' is ambiguous)",
-			"the repeated block is written with single spaces and identical letter case",
+			"on pages with an IE_RM_OFF tag MarkupInfo supplies no title, so clause 2 applies",
+			"the repeated block has the title's words in identical letter case; white space (blanks, line breaks in the source, <br>) and inline markup (drop cap, em, a link around the text) vary",
 		},
 		N: func(tier string) int {
 			if tier == "quick" {
@@ -252,7 +271,21 @@ func runC15(c *Ctx, idx int) {
 	if T != "" {
 		tag := []string{"h1", "h2", "p", "div", "h3"}[idx%5]
 		inner := entityBack.Replace(T)
-		switch idx / 5 % 4 {
+		switch idx / 5 % 8 {
+		case 4: // the text wraps over two source lines
+			if i := strings.Index(T, " "); i > 0 {
+				inner = entityBack.Replace(T[:i]) + "\n      " + entityBack.Replace(T[i+1:])
+			}
+		case 5: // two blanks between two words
+			if i := strings.LastIndex(T, " "); i > 0 {
+				inner = entityBack.Replace(T[:i]) + "  " + entityBack.Replace(T[i+1:])
+			}
+		case 6: // a line break element between two words
+			if i := strings.Index(T, " "); i > 0 {
+				inner = entityBack.Replace(T[:i]) + "<br>" + entityBack.Replace(T[i+1:])
+			}
+		case 7: // the heading is a link
+			inner = `<a href="/story/permalink">` + inner + `</a>`
 		case 1: // drop cap: the first letter sits in its own inline element
 			if rs := []rune(T); len(rs) > 2 && rs[0] < 128 && rs[0] != '&' && rs[0] != '<' {
 				inner = "<span>" + string(rs[0]) + "</span>" + entityBack.Replace(string(rs[1:]))
